@@ -18,7 +18,8 @@ def all_templates():
          g.forward_reference(), g.archive('Carol'), g.tombstone('Forward'), g.upsert_person('dave', 'Dave'),
          g.merge('Dave', 'Bob'), g.expect_version_fails('alice'), g.unknown_type_last('alice'), g.unknown_type_first('alice'),
          g.unknown_type_middle('alice', 'bob'), g.key_conflict_at_commit('bob'), g.create_person('bob', 'Dup'),
-         g.unbound_handle(), g.double_ensure_same_tuple('alice', 'tabs'), g.purge_then_conflict('Bob', 'alice'),
+         g.unbound_handle(), g.double_ensure_same_tuple('alice', 'tabs'),
+         g.double_ensure_anonymous('carol', 'spaces'), g.double_ensure_anonymous('dave', 'vim', False), g.double_ensure_anonymous('alice', 'vim'), g.purge_then_conflict('Bob', 'alice'),
          g.purge('Bob')]
     stmts = []
     for x in t:
